@@ -36,6 +36,10 @@ type run struct {
 	stats   map[string]int
 	tmpl    map[string]int // adversary template usage
 	label   string
+	probeOn bool
+	probe   int // C11 (when probeOn): percent of the PREPARE / COMMIT messages a correct node sends (NEW_VIEW and VIEW_CHANGE: all) that are
+	// delivered AT ONCE to replayed copies of their correct recipients
+	probes, probeMismatch int
 }
 
 func (r *run) honest() []*cnode {
@@ -126,6 +130,42 @@ func (r *run) record(n *cnode, ev string, msg obj, extra obj) {
 	r.stats[ev]++
 	if n.panicked != "" {
 		r.stats["panic"]++
+	}
+	if r.probeOn && !n.isReplica {
+		r.probeSends(n, n.sends)
+	}
+}
+
+// probeSends (C11, "delivered at once to replayed copies of every correct peer"): each message the correct node n just sent
+// is handed, right now, to a copy-by-replay of every correct recipient; the copy's state before and after goes into the
+// trace as a "probe" line, judged by the acceptance formula of C11 only.  The run itself is not affected.
+func (r *run) probeSends(n *cnode, sends []sendRec) {
+	for _, s := range sends {
+		k := kindOf(s.raw)
+		if k == "PP" || k == "BAD" {
+			continue
+		}
+		if (k == "P" || k == "C") && r.rnd.Intn(100) >= r.probe {
+			continue
+		}
+		abs := r.cl.msgAbs(s.raw)
+		for _, id := range s.to {
+			for _, m := range r.cl.nodes {
+				if m == nil || m == n || !m.id.Equal(id) {
+					continue
+				}
+				c := r.cl.replica(m)
+				if c == nil {
+					r.probeMismatch++
+					continue
+				}
+				pre := c.nodeState()
+				c.deliver(s.raw)
+				r.out.emit(obj{"ev": "probe", "n": idName(m.idx), "from": idName(n.idx), "msg": abs, "pre": pre, "post": c.nodeState(), "panic": c.panicked != ""})
+				c.shutdown()
+				r.probes++
+			}
+		}
 	}
 }
 
@@ -339,6 +379,7 @@ func cmdCluster(args []string) int {
 	nMax := fs.Int("nmax", 5, "")
 	noByz := fs.Bool("nobyz", false, "no Byzantine members, no adversary")
 	only := fs.Int("only", -1, "generate only this run index (replay)")
+	probe := fs.Int("probe", -1, "C11: percent of PREPARE/COMMIT sends (NEW_VIEW / VIEW_CHANGE: all) delivered at once to replayed copies of their correct recipients; -1: none")
 	lone := fs.Bool("lone", false, "ONE correct node; every other member's key is held by the adversary, so each guard of the node is reachable one deviation at a time (only per-node properties are meaningful)")
 	fs.Parse(args)
 	out := newNdjson(*outPath)
@@ -371,10 +412,12 @@ func cmdCluster(args []string) int {
 		}
 		cl := newCluster(ws, byz, 1, rnd.Intn(2) == 0)
 		cl.lenient = rnd.Intn(4) == 0
-		r := &run{cl: cl, adv: newAdversary(cl), rnd: rnd, out: out, chain: map[uint64]commitRec{}, maxH: uint64(*maxH), stats: stats, tmpl: tmpl}
+		r := &run{cl: cl, adv: newAdversary(cl), rnd: rnd, out: out, chain: map[uint64]commitRec{}, maxH: uint64(*maxH), stats: stats, tmpl: tmpl, probeOn: *probe >= 0, probe: *probe}
 		r.emitInit(i)
 		r.startNodes()
 		r.loop(*maxSteps, pol)
+		stats["probes"] += r.probes
+		stats["probe_replica_mismatch"] += r.probeMismatch
 		for _, nd := range r.honest() {
 			commits += len(nd.allCommits)
 		}
